@@ -124,8 +124,7 @@ def noUnusedFragments (d : Doc) : Prop :=
 
 /-- rules of the model for which no `rule_*_iff` theorem exists yet: their verdict equivalence and
     invariance rest on the correspondence check (harness/corr/C06_model.py) -/
-def Unproved : List String :=
-  ["OverlappingFieldsCanBeMergedChecker"]
+def Unproved : List String := []
 
 end PyGql.Validate.Spec
 
